@@ -26,6 +26,41 @@ def showRes : Res → String
   | Res.reject => "reject"
   | Res.panic => "panic"
 
+/-- `pb` items: `v<k>:<ts>` (valid precommit signature of key k for the list's target with timestamp ts),
+    `w<k>:<ts>` (key k signed another block), `f<j>:<ts>` (junk signature) -/
+def parsePbItem (n : Nat) (tok : String) : Option (Option Nat × Int) :=
+  match tok.splitOn ":" with
+  | [a, ts] =>
+    match ts.toInt?, a.toList with
+    | some ts, c :: rest =>
+      match (String.ofList rest).toNat? with
+      | some k =>
+        if c = 'v' then some (if k < n then some k else none, ts)
+        else if c = 'w' ∨ c = 'f' then some (none, ts)
+        else none
+      | none => none
+    | _, _ => none
+  | _ => none
+
+/-- `pb` pre-existing precommits: `<k>:<d>:<ts>` -/
+def parsePre (n : Nat) (round : Int) (tok : String) : Option (Nat × C04.Vote) :=
+  match tok.splitOn ":" with
+  | [k, d, ts] =>
+    match k.toNat?, d.toNat?, ts.toInt? with
+    | some k, some d, some ts => if k < n ∧ d ≤ 2 then some (k, { h := 5, r := round, t := 1, d := d, ts := ts }) else none
+    | _, _, _ => none
+  | _ => none
+
+def parseList {α : Type} (f : String → Option α) (tok : String) : Option (List α) :=
+  if tok == "-" then some [] else (tok.splitOn ",").mapM f
+
+def showPB : PB → String
+  | PB.accept => "accept"
+  | PB.rejectToVoteList => "reject-tovotelist"
+  | PB.rejectNoQuorum => "reject-noquorum"
+  | PB.rejectPartSet => "reject-partset"
+  | PB.panic => "panic"
+
 def step (s : Unit) (toks : List String) : Unit × String :=
   match toks with
   | ["reset"] => (s, "ok")
@@ -39,6 +74,18 @@ def step (s : Unit) (toks : List String) : Unit × String :=
       | "nilv" => (s, showRes (verifyBlock (signerOf n) true n items))
       | _ => (s, "bad-op")
     | none => (s, "bad-op")
+  | ["pb", n, round, pseq, pre, items] =>
+    match n.toNat?, round.toNat?, pseq.toNat? with
+    | some n, some round, some pseq =>
+      if n > 64 ∨ pseq > 1 then (s, "bad-op") else
+      match parseList (parsePre n round) pre, parseList (parsePbItem n) items with
+      | some pre, some items =>
+        let s0 := C04.addAll (C04.new n) pre
+        let r := processBlock (fun (it : Option Nat × Int) => it.1)
+          (fun it => { h := 5, r := round, t := 1, d := 1, ts := it.2 }) s0 items id (if pseq = 1 then 1 else 3)
+        (s, showPB r)
+      | _, _ => (s, "bad-op")
+    | _, _, _ => (s, "bad-op")
   | ["enough", a, b] =>
     match a.toNat?, b.toNat? with
     | some a, some b => (s, if enoughVote a b then "1" else "0")
